@@ -73,6 +73,7 @@ def runMon (f : List String) : String :=
   | some "cconv" => ClientGlue.monitor pid c a
   | some "e2e" => E2E.monitor pid c a
   | some "cstls" => CSTLS.monitor pid c a
+  | some "accept2" => Sched.monitorAccept2 c a
   | _ => "ok"
 
 def runCase (line : String) : String :=
@@ -90,6 +91,7 @@ def runCase (line : String) : String :=
   | some "e2e" => E2E.probe f
   | some "cstls" => CSTLS.probe f
   | some "accept" => Sched.probeAccept f
+  | some "accept2" => Sched.probeAccept2 f
   | some "sched" => Sched.probeSched f
   | some p => "DRIVER-UNKNOWN-PROBE " ++ p
   | none => "DRIVER-EMPTY"
